@@ -210,13 +210,18 @@ Lemma old_slice_generator_lost : items (setslice_gen_old 0 1 [1; 2] (init KList 
   /\ items (fst (step KList (SetSliceIter 0 1 [1; 2]) (init KList [0]))) = [1; 2].
 Proof. split; vm_compute; reflexivity. Qed.
 
-(* ---- outside the fragment ------------------------------------------------------------------------------------ *)
-(* q = C(f = p.f); q.f.append(x): x is in p's field and was never recorded for p *)
-Theorem refuted_ctor_alias : exists s x, wf KList (items s) /\ incl (items s) (rec s) /\ let t := append_q x (ctor_alias s) in In x (shared t) /\ ~ In x (recp t).
+(* regression (before 6f674bd): q = C(f = p.f); q.f.append(x): x was in p's field and never recorded for p *)
+Lemma old_ctor_alias_unrecorded : exists s x, wf KList (items s) /\ incl (items s) (rec s) /\ let t := append_q x (ctor_alias s) in In x (shared t) /\ ~ In x (recp t).
 Proof.
   exists (init KList [0]), 1. split; [exact I|]. split.
   - intros y Hy. exact Hy.
   - simpl. split; [right; now left|]. intros [H | []]. discriminate.
+Qed.
+
+(* now the constructor copies: q starts from p's contents with everything recorded for q, p is untouched *)
+Lemma ctor_copy_ok p : items (ctor_copy p) = items p /\ incl (items (ctor_copy p)) (rec (ctor_copy p)).
+Proof.
+  destruct (init_ok KList (items p)) as [_ [H2 H3]]. unfold ctor_copy. split; [exact H3 | exact H2].
 Qed.
 
 (* regression (before b78c5e4): x.f[0:0] = [t2, t3] with t2 == t3 distinct objects of one ==-class: the old recording kept only
